@@ -5,6 +5,7 @@ import itertools
 import time
 
 from vf.adapt import asm
+from vf.checks import freshcmp
 from vf.engine.core import CaseTimeout, InternalError, Partial, pmap
 from vf.ref import rv32
 
@@ -535,7 +536,74 @@ def pseudo_shard(shard):
     return p
 
 
+def full_memory_case(short, variant):
+    """A well-formed program that fills the instruction memory up to `short` instructions below its capacity: li (2
+    instructions), nops, and a tail with labels, a backward branch, a backward jump and a label at the very end."""
+    from architecture_simulator.settings.settings import Settings
+    st = Settings().get()
+    cap = (st["instruction_memory_max_bytes"] - st["instruction_memory_min_bytes"]) // 4
+    n = cap - short
+    nop = ("nop", "NOP", "addi x0, x0, 0")[variant]
+    lines = ["first: li x5, 0x12345"] + [nop] * (n - 6) + ["mid: addi x1, x1, 1", "bne x1, x0, mid", "jal x0, mid", "last: beq x0, x0, last"] + (["end:"] if variant else [])
+    text = "\n".join(lines) + "\n"
+    try:
+        a = asm.assemble(text, timeout=120)
+    except Exception as e:  # noqa
+        return n, f"load_program raised {type(e).__name__}: {e!r}"
+    if a.addrs != list(range(0, 4 * n, 4)):
+        return n, f"{len(a.addrs)} instructions placed (last address {a.addrs[-1] if a.addrs else None}), the text denotes {n} at 0..{4 * n - 4}"
+    li = asm.assemble("li x5, 0x12345\n").fields  # the group is whatever li assembles to on its own (same wherever it occurs)
+    if len(li) != 2 or [tuple(f) for f in a.fields[:2]] != [tuple(f) for f in li]:
+        return n, f"the li group at the start is {a.fields[:2]}, on its own it assembles to {li}"
+    want = {8: ("addi", 0, 0, None, 0), 4 * (n - 5): ("addi", 0, 0, None, 0),
+            4 * (n - 4): ("addi", 1, 1, None, 1), 4 * (n - 3): ("bne", None, 1, 0, -4), 4 * (n - 2): ("jal", 0, None, None, -8), 4 * (n - 1): ("beq", None, 0, 0, 0)}
+    for addr, w in want.items():
+        got = a.fields[addr // 4]
+        if tuple(got) != w:
+            return n, f"instruction at {addr} is {tuple(got)}, the text denotes {w}"
+    return n, None
+
+
+def full_memory_shard(shard):
+    short, variant = shard
+    p = Partial()
+    n, d = full_memory_case(short, variant)
+    p.evaluations += 1
+    p.nontrivial += 1
+    p.counters["program-filling-the-instruction-memory" if short == 0 else "program-nearly-filling-the-instruction-memory"] += 1
+    if d:
+        p.violation(dict(oracle="full-instruction-memory", field="layout"), dict(kind="full-memory", short=short, variant=variant),
+                    f"program of {n} instructions (capacity minus {short}): {d}", size=(short, variant))
+    return p
+
+
+FRESH_TEXTS = [
+    "NOP\n",
+    "nop\nNOP\nl: NOP\nbeq x0, x0, l\n",
+    "l: NOP\nNOP\nbeq x0, x0, l\nx: nop\n",
+    "start: addi x1, x0, 1\nloop:\nadd x2, x1, x1\nbne x2, x0, loop\njal x0, start\nend:\n",
+    ".data\nv: .word 1, 2\n.text\nla x1, v\nlw x2, v[1]\nsw x2, v, x3\nli x4, 0x12345\nmv x5, x4\n",
+    "ECALL\nl: ecall\nbeq x1, x2, l\n",
+]
+FRESH_OTHER = "loop: add x1, x1, x1\nstart: nop\nl: NOP\n.data\nv: .byte 1\nx: .word 2\n"
+
+
+def fresh_items():
+    """What the process did before must not change what a text assembles to (each scenario in a fresh interpreter)."""
+    out = []
+    for t in FRESH_TEXTS:
+        for prelude in ([["toy_load", t]], [["toy_load", "NOP\nnop\nl: NOP\nINC\nx: nop\nstart:\nloop:\nend:\n"]], [["rv_load", FRESH_OTHER]],
+                        [["rv_load", "l: addi x1, x0, 1\nbeq x0, x0, nowhere\n"]], [["rv_new", "five_stage_pipeline", True], ["toy_run", "INC\nNOP\n"]]):
+            out.append(("assembler-history", prelude, ["rv_image", t]))
+    return out
+
+
 def replay(case):
+    if case["kind"] == "fresh":
+        return freshcmp.replay(case)
+    if case["kind"] == "full-memory":
+        _n, d = full_memory_case(case["short"], case["variant"])
+        return [(dict(oracle="full-instruction-memory", field="layout"), d)] if d else []
     k = case["kind"]
     if k == "layout":
         seq, labs, endlab, tg, off = case["case"]
@@ -612,6 +680,16 @@ def run(ctx):
     t0 = time.time()
     part = pmap(spelling_shard, [(i, 32) for i in range(32)])
     ctx.space("spelling-deviations", part, t0)
+    t0 = time.time()
+    part = pmap(full_memory_shard, [(0, 0), (1, 1)] if ctx.quick else [(0, 0), (0, 1), (0, 2), (1, 1), (2, 2)])
+    ctx.space("programs-filling-the-instruction-memory", part, t0, note="li + nops + labelled tail; capacity, capacity-1 (and -2) instructions after expansion")
+    ctx.require("program-filling-the-instruction-memory")
+    t0 = time.time()
+    items = fresh_items()
+    part = pmap(freshcmp.shard, [items[i::16] for i in range(16) if items[i::16]])
+    ctx.space("assembler-history-fresh-interpreters", part, t0, texts=len(FRESH_TEXTS), preludes=5,
+              note="each scenario runs in its own interpreter; compared with the same text assembled in a pristine interpreter")
+    ctx.require("fresh-interpreter-differential")
     t0 = time.time()
     part = pmap(pseudo_shard, [(i, 32) for i in range(32)])
     ctx.space("pseudo-instruction-effects", part, t0, cases=len(pseudo_cases()))
